@@ -47,3 +47,8 @@ Theorem C16_sorted_cut :
   forall x y, In x (firstn m sv) -> In y (skipn m sv) -> leb N x y = true.
 Proof. intros N ok L. exact (sorted_asc_split L). Qed.
 Print Assumptions C16_sorted_cut.
+
+(* ---- binary64, all values but NaN (Base/NumFOrd.v, Flocq) ---- *)
+From PV Require Import Base.NumF Base.NumFOrd.
+Definition C16_sorted_cut_float_nn := C16_sorted_cut Fn nonnanf Fn_ord_nn.
+Print Assumptions C16_sorted_cut_float_nn.
